@@ -3574,6 +3574,10 @@ class DecVar(Vars):
 
     def adapt(self, to):
 
+        if self.dro_model.var_ev_list is not None:
+            raise SyntaxError('Adaptation must be defined ' +
+                              'before the model is formulated.')
+
         if isinstance(to, (Scen, Sized, int)):
             self.evtadapt(to)
         elif isinstance(to, (RandVar, RandVarSub)):
@@ -3785,6 +3789,9 @@ class DecVarSub(VarSub):
             raise ValueError('No affine adaptation for integer variables.')
         if self.dro_model is not rvars.model.top:
             raise ValueError('Model mismatch.')
+        if self.dro_model.var_ev_list is not None:
+            raise SyntaxError('Adaptation must be defined ' +
+                              'before the model is formulated.')
 
         self.fixed = False
         if self.rand_adapt is None:
